@@ -1896,6 +1896,12 @@ def m_arrayvec_push(ctx, args):
     return UNIT
 
 
+@model("arrayvec::ArrayVec::is_full")
+def m_arrayvec_is_full(ctx, args):
+    # the same atom try_push fails on and a guarded push is discharged by
+    return ("b", ctx.eng.bdd.var(("is_full", val(ctx, args[0]))))
+
+
 @model("arrayvec::ArrayVec::try_push")
 def m_arrayvec_try_push(ctx, args):
     old = val(ctx, args[0])
